@@ -203,7 +203,7 @@ _PRESENCE = [(0, 0), (1, 0), (0, 1), (1, 1)]
 @ob("C11", "version_conversion_keeps_the_unsigned_transaction", quick=[dict(pres=[a, b], fb=f, seqs=s) for a in range(4) for b in range(4) for f in (0, 1) for s in (0, 1) if (a + b + f + s) % 2 == 0],
     thorough=[dict(pres=[a, b], fb=f, seqs=s) for a in range(4) for b in range(4) for f in (0, 1) for s in (0, 1)],
     bound="a version 2 PSBT with two inputs, each holding a required height and/or time lock (presence pattern concrete, values symbolic over their whole ranges), an optional fallback lock time, "
-          "optional sequences and a symbolic transaction version: its lock time is BIP370's, and to_v0 / to_v2 keep version, lock time, every sequence and outpoint and every output",
+          "optional sequences and a symbolic transaction version: its lock time is BIP370's, and to_v0 / to_v2 keep version, lock time, every sequence and outpoint and every output; every conversion -- to the version already held included -- returns an object that shares nothing mutable with its source",
     functions=["btclib.psbt.psbt.Psbt.to_v0", "btclib.psbt.psbt.Psbt.to_v2", "btclib.psbt.psbt._lock_time"], min_ok=1, timeout=300)
 def version_conversion(ex, pres, fb, seqs):
     ex.prefer_int()
@@ -225,6 +225,7 @@ def version_conversion(ex, pres, fb, seqs):
         tx = p.tx
         v0 = p.to_v0()
         back = v0.to_v2()
+        same_version = [(p, p.to_v2()), (v0, v0.to_v0())]      # the directions with nothing to convert are roles too
     except BTClibValueError as e:
         return {"refused_only_when_kinds_conflict": want is None}
     if want is None:
@@ -234,7 +235,15 @@ def version_conversion(ex, pres, fb, seqs):
         return sand(a.version == b.version, a.lock_time == b.lock_time, len(a.vin) == len(b.vin), len(a.vout) == len(b.vout),
                     *[sand(x.prev_out.tx_id == y.prev_out.tx_id, x.prev_out.vout == y.prev_out.vout, x.sequence == y.sequence) for x, y in zip(a.vin, b.vin)],
                     *[sand(x.value == y.value, x.script_pub_key.script == y.script_pub_key.script) for x, y in zip(a.vout, b.vout)])
-    return {"lock_time_is_bip370": lt == want,
+    shared = []
+    for src, dst in [(p, v0), (v0, back)] + same_version:
+        mine, theirs = {}, {}
+        _mutable_ids(dst, mine)
+        _mutable_ids(src, theirs)
+        shared.extend(mine[i] for i in mine if i in theirs)
+    return {"every_conversion_returns_a_fresh_object": not shared,
+            "converting_to_the_version_already_held_changes_nothing": sand(*[a == b for a, b in same_version]),
+            "lock_time_is_bip370": lt == want,
             "tx_carries_it": sand(tx.lock_time == want, tx.version == tx_version,
                                   *[x.sequence == (s if s is not None else 0xFFFFFFFF) for x, s in zip(tx.vin, [i.sequence for i in ins])]),
             "to_v0_keeps_the_transaction": same_tx(v0.tx, tx),
@@ -314,3 +323,53 @@ def signer_answer(ex, what):
     if what in ("none", "tx_modifiable_tightened"):
         return {"accepted": ok}
     return {"tampered_answer_refused": not ok}
+
+
+_SIG_CASES = [k + "_" + h for k in ("ecdsa", "tapkey", "tapscript") for h in ("kept", "dropped", "changed", "emptied")]
+
+
+@ob("C11", "a_signers_answer_keeps_every_signature_of_the_request", quick=[dict(what=w) for w in _SIG_CASES],
+    bound="a second-round request that already carries a signature (an ECDSA partial signature on a p2wpkh input, a taproot key-path signature or a script-path signature on a p2tr input; signature octets symbolic) "
+          "and an answer that is its copy with that signature kept, dropped, changed in one octet by a symbolic non-zero difference, or replaced by an empty value: only the kept copy is accepted "
+          "(the request's own signatures are held from the request and never verified again)",
+    functions=["btclib.psbt.psbt.assert_signatures_only", "btclib.psbt.psbt._assert_signatures_added_only"], outside=["answers that add signatures (their verification is 256-bit arithmetic)", "musig2 maps"],
+    min_ok=1, timeout=300)
+def signer_answer_keeps_signatures(ex, what):
+    ex.prefer_int()
+    kind, how = what.rsplit("_", 1)
+    d8 = ex.int("delta8", 1, 255)
+    pos = ex.int("pos", 0, 63)
+    sig = ex.bytes("sig", 64)
+    tap = kind != "ecdsa"
+    spk = (b"\x51\x20" + _G) if tap else _SPK
+    leaf_key = _G + b"\x42" * 32
+    pin = PsbtIn(previous_tx_id=_PREV.id, output_index=0, sequence=0xFFFFFFFD, witness_utxo=TxOut(5000, spk, check_validity=False), check_validity=False)
+    if kind == "ecdsa":
+        pin.partial_sigs = {_PUBS[0]: b"\x30" + sig + b"\x01"}
+    elif kind == "tapkey":
+        pin.taproot_key_spend_signature = sig
+    else:
+        pin.taproot_script_spend_signatures = {leaf_key: sig}
+    pout = PsbtOut(amount=4000, script_pub_key=_SPK, check_validity=False)
+    request = Psbt(2, [pin], [pout], 2, {}, check_validity=False)
+    answer = _deepcopy(request)
+    i = answer.inputs[0]
+    flipped = bytes([ite(pos == j, sig[j] ^ d8, sig[j]) for j in range(64)]) if ex.concrete else None
+    if not ex.concrete:
+        from sx.seq import SymBytes
+        flipped = SymBytes([ite(pos == j, sig[j] ^ d8, sig[j]) for j in range(64)])
+    new = {"kept": sig, "dropped": None, "changed": flipped, "emptied": b""}[how]
+    if kind == "ecdsa":
+        i.partial_sigs = {} if new is None else {_PUBS[0]: (b"\x30" + new + b"\x01") if how != "emptied" else b""}
+    elif kind == "tapkey":
+        i.taproot_key_spend_signature = b"" if new is None else new
+    else:
+        i.taproot_script_spend_signatures = {} if new is None else {leaf_key: new}
+    try:
+        assert_signatures_only(request, answer)
+        ok = True
+    except BTClibValueError:
+        ok = False
+    if how == "kept":
+        return {"the_unchanged_answer_is_accepted": ok}
+    return {"an_answer_that_lost_or_altered_a_signature_is_refused": not ok}
